@@ -138,7 +138,7 @@ CHECKS = {
         rule=('format case = (mode, 1..8 message lengths from {0,4,..,around 127 words,..,2^16 (2^20 thorough)}); tcp case = (mode, 0..5 plain packets, optional 4-byte '
               'error frame with signed code, close at boundary/mid-message/none, composition of TCP write sizes, 0..3 messages written back); detect case = first '
               'bytes. Non-trivial: >=2 messages, a message of >=127 words, a cut inside a header, >=2 messages in one segment, or >8 segments; distinct by hash of the case.'),
-        must_hit=['client-writes-after-quiet-period>timeout', 'msg>=2^24bytes', 'client-writes-after-a-refused-write', 'kind:format', 'kind:tcp', 'kind:detect', 'abridged', 'intermediate', 'msg>=127words', 'msg>=2^16words', 'client-closes-right-after-writing', 'msg-at-127-word-switch', 'cut-inside-header',
+        must_hit=['error-frame-followed-by-messages', 'client-writes-after-quiet-period>timeout', 'msg>=2^24bytes', 'client-writes-after-a-refused-write', 'kind:format', 'kind:tcp', 'kind:detect', 'abridged', 'intermediate', 'msg>=127words', 'msg>=2^16words', 'client-closes-right-after-writing', 'msg-at-127-word-switch', 'cut-inside-header',
                   'error-frame-negative', 'close:boundary', 'close:mid', 'client-writes', 'many-segments', 'msg-empty'],
         assumptions=['the kernel may coalesce separately written segments: that only weakens a case, it never falsifies one',
                      'message lengths are multiples of 4 (every MTProto packet is)', 'in-memory pipe honours the exact-count read contract that tcpConn.Read provides'],
